@@ -24,9 +24,10 @@ theorem en_send (c : Cfg) (s : St) : en c s .send = (sstep c s.sh s.send).isSome
 theorem en_proc (c : Cfg) (s : St) : en c s .proc = (pstep c s.sh s.proc).isSome := by
   simp [en, tstep]
 
-/-- where the receiver can be stuck -/
+/-- where the receiver can be stuck: waiting for space because the incoming ring is completely
+full (and open), inside a socket read with nothing on the wire, or at its end -/
 theorem recv_blocked (c : Cfg) (hw : WF c) (s : St) (hA : InvA c s) (h : en c s .recv = false) :
-    (s.recv = .space ∧ s.sh.inR.done = false ∧ c.cap < s.sh.inR.buf + c.rblock) ∨
+    (s.recv = .space ∧ s.sh.inR.done = false ∧ c.cap ≤ s.sh.inR.buf) ∨
     (s.recv = .read ∧ s.sh.sock = .open ∧ s.sh.timeout = false ∧ s.sh.wire = 0) ∨
     s.recv = .exited := by
   rw [en_recv] at h
@@ -34,9 +35,11 @@ theorem recv_blocked (c : Cfg) (hw : WF c) (s : St) (hA : InvA c s) (h : en c s 
   | space =>
     left
     rw [hpc] at h
-    simp only [rstep] at h
-    cases hs : s.sh.inR.waitSpace c c.rblock with
-    | none => exact ⟨rfl, ((waitSpace_none_iff c _ _).mp hs).2⟩
+    simp only [rstep, spaceNeed_wf c hw] at h
+    cases hs : s.sh.inR.waitSpace c 1 with
+    | none =>
+      have := ((waitSpace_none_iff c _ _).mp hs).2
+      exact ⟨rfl, this.1, by omega⟩
     | some q => obtain ⟨ret, r⟩ := q; cases ret <;> simp [hs] at h
   | read =>
     right; left
@@ -306,11 +309,14 @@ theorem closed_exits (c : Cfg) (hw : WF c) (s : St) (hA : InvA c s) (hq : ∀ t,
 
 /-- **what a state in which nothing can run looks like**: the teardown is complete (`Final`), or
 the processor is inside a delivery held up by a still-open connection that has stopped reading
-(`HeldByThird`, `HeldBySelf` — the property's exemption), or the state is the F3 wedge
-(`ChunkWedge`), or the connection simply has not ended (everybody legitimately waits for traffic) -/
+(`HeldByThird`: another connection — the property's exemption; `HeldBySelf`: its own, see
+`self_held_not_ended`), or the connection simply has not ended (everybody legitimately waits for
+traffic).  There is no state in which receiver and processor wait for each other (the F3 wedge before
+8f682d1): a processor waiting for inbound data faces a ring that is not full (the data it waits for
+fits the ring), and a receiver waits for space only while the ring is completely full. -/
 theorem quiescent_cases (c : Cfg) (hw : WF c) (s : St) (hA : InvA c s) (hW : InvW s) (hK : InvK s)
     (hq : ∀ t, en c s t = false) :
-    Final s = true ∨ HeldByThird s = true ∨ HeldBySelf s = true ∨ ChunkWedge c s = true ∨ Ended s = false := by
+    Final s = true ∨ HeldByThird s = true ∨ HeldBySelf s = true ∨ Ended s = false := by
   have hwg := hA.wg
   -- every external stopper is idle, finished, or at Wait
   have hks : ∀ i : Nat, ∀ k : KPc, s.ks[i]? = some k → k = .idle ∨ k = .finished ∨ (k = .run 5 ∧ s.sh.wg ≠ 0) :=
@@ -432,14 +438,12 @@ theorem quiescent_cases (c : Cfg) (hw : WF c) (s : St) (hA : InvA c s) (hW : Inv
       first
       | -- waiting for inbound data
         (rcases recv_blocked c hw s hA (hq .recv) with ⟨hr, hrd, hrb⟩ | ⟨hr, hso, hto, _⟩ | hr
-         · first
-           | (right; right; right; left
-              simp [ChunkWedge, hr, hpc, hnd, hst, hbuf, hcap, hrb])
-           | (exfalso
-              have := hdrNeed_le s.sh.stream
-              have := hw.room
-              omega)
-         · right; right; right; right
+         · -- the receiver waits because the ring is full: then the processor has what it waits for
+           exfalso
+           have := hdrNeed_le s.sh.stream
+           have := hw.room
+           omega
+         · right; right; right
            simp [Ended, hso, hto, hopen, hr, hpc, RPc.pastLoop, PPc.pastLoop]
          · exfalso
            have := hA.rdone (by simp [hr, RPc.closedRing])
